@@ -53,6 +53,21 @@ def bases(engine):
     return out
 
 
+def force_in_backoff(engine, n):
+    """a force stop accepted while the pipeline waits (status Recovering) to be restarted after a transient failure:
+    there is no live run to kill, the pipeline must still end failed-by-force-stop and not be restarted"""
+    out = []
+    for i in range(n):
+        src = S("s1", 4, [1] * 4, gated=False, read_err_at=1 + i % 2, read_err="verif: source read failed", fault_runs=1 + i % 2)
+        sc = dpgen.scenario("%s-fb-%03d" % (engine, i), engine, [src], [D("d1", gated=False)],
+                            steps=[{"do": "WaitStatus", "tag": "Recovering", "ms": 4000}, {"do": "Stop", "force": True},
+                                   {"do": "Sleep", "ms": 700}],
+                            max_retries=3, min_delay_ms=250, max_delay_ms=400, final_restart=True)
+        sc["features"] = sorted(set(dpgen.features_of(sc)) | {"expect-forcestop", "force-in-backoff"})
+        out.append(sc)
+    return out
+
+
 def random_force(engine, rng, n):
     out = []
     for i in range(n):
@@ -92,6 +107,7 @@ def run(tier, seed):
             scs += force_everywhere(b)
             scs += force_everywhere(b, async_start=True)[:1]
     chk.run(scs, name="force-everywhere")
+    chk.run(force_in_backoff("v1", 4 if quick else 20) + force_in_backoff("v2", 4 if quick else 20), name="force-in-backoff")
     n = 40 if quick else 1500
     chk.run(random_force("v1", rng, n) + random_force("v2", rng, n), name="force-random")
     chk.validate()
@@ -100,7 +116,7 @@ def run(tier, seed):
                       "DLQ / processors = unresponsive plugins; during a graceful stop; lazy persister; concurrently with "
                       "Start), plus seeded random scenarios; each followed by a restart check; non-trivial = a force stop "
                       "was issued; distinct = distinct (engine, base, records emitted / acked / in flight at that instant, "
-                      "start-up finished?, graceful stop pending?, result of the call)",
+                      "start-up finished?, graceful stop pending?, result of the call); plus a force stop during the recovery back-off",
                       ["blocked plugins are realised by closed gates that honour context cancellation",
                        "bounded liveness 40 s", "fake plugins on in-process streams"])
 
